@@ -18,6 +18,9 @@ type metaCall struct {
 	Derive   int         // 0: from the shared base context, 1: from a fresh context, 2: from the previous call's context
 	Adds     [][2][]byte // pairs attached for this call
 	AddPairs bool        // attach them with AddPairs instead of a chain of Add
+	// Reuse (AddPairs only): the application keeps its map and changes it after AddPairs returned
+	// (overwrites every value, adds a key); the call's metadata is what was attached, not what the map became
+	Reuse bool
 	Unary    bool
 	Abandon  bool // the call is cancelled between its metadata packet and its invoke (soft cancel only)
 }
@@ -44,6 +47,7 @@ func genC11(t *rapid.T) c11Case {
 		m := metaCall{Derive: rapid.SampledFrom([]int{0, 0, 1, 2}).Draw(t, "derive"), AddPairs: rapid.Bool().Draw(t, "addpairs"), Unary: rapid.Bool().Draw(t, "unary")}
 		m.Adds = rapid.SliceOfN(rapid.Custom(genKV), 0, 3).Draw(t, "adds")
 		m.Abandon = rapid.IntRange(0, 4).Draw(t, "abandon") == 0
+		m.Reuse = rapid.Bool().Draw(t, "reuse")
 		return m
 	}), 2, 6).Draw(t, "calls")
 	c.Concurrent = rapid.IntRange(0, 2).Draw(t, "concurrent") == 0
@@ -103,7 +107,7 @@ func runC11(c c11Case) (r pbt.Result) {
 	}
 	prevCtx, prevWant := base, copyMap(baseWant)
 	choices := append([]int(nil), c.Choices...)
-	abandoned, shared := 0, 0
+	abandoned, shared, reused := 0, 0, 0
 	type prepared struct {
 		ctx     context.Context
 		cancel  func()
@@ -134,6 +138,13 @@ func runC11(c c11Case) (r pbt.Result) {
 			ctx = drpcmetadata.AddPairs(ctx, m)
 			for kk, v := range m {
 				want[kk] = v
+			}
+			if call.Reuse {
+				for kk := range m {
+					m[kk] = "changed-after-AddPairs"
+				}
+				m["added-after-AddPairs"] = "x"
+				reused++
 			}
 		} else {
 			for _, kv := range call.Adds {
@@ -257,6 +268,9 @@ func runC11(c c11Case) (r pbt.Result) {
 	}
 	if shared >= 2 {
 		r.Label("contexts_derived_from_shared_parent")
+	}
+	if reused > 0 {
+		r.Label("caller_changed_its_map_after_AddPairs")
 	}
 	distinct := map[string]bool{}
 	for k := range c.Calls {
